@@ -368,7 +368,7 @@ Proof.
                                              tcw x' = tcw x /\ tcwk x' = tcwk x /\ towed x' = towed x
                         | None, None => True | _, _ => False end).
   { intros j. rewrite poll_ready_nth. destruct (negb (t_full s)).
-    - destruct (nth_error (rings s) j) as [x|] eqn:E; auto. destruct (W _ _ E). repeat split; auto.
+    - destruct (nth_error (rings s) j) as [x|] eqn:E; auto. destruct (W _ _ E) as [Cx Tx]. split; [exact Cx|]. repeat split; auto.
     - destruct (nth_error (rings s) j) as [x|] eqn:E; cbn; auto. apply prr_spec. apply (W _ _ E). }
   split.
   - intros j x' E. specialize (K j). rewrite E in K. destruct (nth_error (rings s) j) as [x|] eqn:E0; [|contradiction].
@@ -389,6 +389,36 @@ Proof.
   intros s j. unfold Wk. rewrite poll_ready_nth. destruct (negb (t_full s)); auto.
   destruct (nth_error (rings s) j) as [x|] eqn:E; cbn; auto.
 Abort.
+
+Lemma set_ring_spec : forall l i (x x' : txr) j, nth_error l i = Some x ->
+  nth_error (set_nth i l x') j = if Nat.eqb j i then Some x' else nth_error l j.
+Proof. intros. rewrite nth_error_set_nth, H. auto. Qed.
+
+(* replacing ring i by a ring with the same wake state and published index keeps the judge's view *)
+Lemma set_ring_rel : forall s i x x' tf ew vis wait, wf s -> Rel s vis wait -> (i < 3)%nat ->
+  nth_error (rings s) i = Some x -> cinvr size (tc x') -> towed x' = false -> tw (tc x') = tw (tc x) ->
+  tcwk x' = tcwk x ->
+  let s' := mkTx (set_nth i (rings s) x') tf ew in
+  wf s' /\ length (rings s') = length (rings s) /\
+  (forall j, j <> i -> V s' j = V s j) /\ V s' i = (Nz (tw (tc x')) - Nz (tr (tc x')))%Z /\
+  (forall j, Wk s' j = Wk s j) /\
+  (forall j, j <> i -> forall w, wait_at s j w -> wait_at s' j w) /\
+  (tcw x' = tcw x -> forall w, wait_at s i w -> wait_at s' i w) /\
+  nth_error (rings s') i = Some x'.
+Proof.
+  intros s i x x' tf ew vis wait W R Hi Ex C' T' Tw Tk. cbv zeta.
+  assert (SR := fun j => set_ring_spec (rings s) i x x' j Ex).
+  split; [|split; [cbn [rings]; apply length_set_nth|]].
+  - intros j y E. cbn [rings] in E. rewrite SR in E. destruct (Nat.eqb_spec j i); [inversion E; subst; auto|apply (W _ _ E)].
+  - split; [|split; [|split; [|split; [|split]]]].
+    + intros j Hj. unfold V. cbn [rings]. rewrite SR. destruct (Nat.eqb_spec j i); [contradiction|auto].
+    + unfold V. cbn [rings]. rewrite SR, Nat.eqb_refl. auto.
+    + intros j. unfold Wk. cbn [rings]. rewrite SR. destruct (Nat.eqb_spec j i); auto. subst. rewrite Ex, Tk. auto.
+    + intros j Hj w Hw. unfold wait_at in *. destruct w; auto. cbn [rings]. rewrite SR. destruct (Nat.eqb_spec j i); [contradiction|auto].
+    + intros Tc w Hw. unfold wait_at in *. destruct w as [w0|]; auto. destruct Hw as (y & Ey & Y1 & Y2).
+      rewrite Ex in Ey. inversion Ey. subst y. exists x'. cbn [rings]. rewrite SR, Nat.eqb_refl. split; auto. split; congruence.
+    + cbn [rings]. rewrite SR, Nat.eqb_refl. auto.
+Qed.
 
 Lemma judge_trun : forall fuel ops s vis wait nr,
   wf s -> length (rings s) = nr -> (1 <= nr <= 3)%nat -> Rel s vis wait ->
@@ -436,6 +466,107 @@ Proof.
     + destruct (0 <? V s2 0 - V s 0)%Z; [exact I|exact K0].
     + destruct (0 <? V s2 1 - V s 1)%Z; [exact I|exact K1].
     + destruct (0 <? V s2 2 - V s 2)%Z; [exact I|exact K2].
-  - admit_other.
+  - apply Hlen. destruct (poll_ready size s) as [s' code] eqn:E.
+    destruct (poll_ready_rel s vis wait W (mkRel _ _ _ Rv Rl Rw)) as (W' & R').
+    pose proof (poll_ready_len s) as L'. rewrite E in W', R', L'. cbn [fst] in W', R', L'.
+    rewrite wakes_out_eq. cbn [app]. apply IH; auto. lia.
+  - apply Hlen. destruct (poll_ready size s) as [s' code] eqn:E.
+    destruct (poll_ready_rel s vis wait W (mkRel _ _ _ Rv Rl Rw)) as (W' & R').
+    pose proof (poll_ready_len s) as L'. rewrite E in W', R', L'. cbn [fst] in W', R', L'.
+    rewrite wakes_out_eq. cbn [app]. apply IH; auto. lia.
+  - apply Hlen. destruct (poll_ready size s) as [s' code] eqn:E.
+    destruct (poll_ready_rel s vis wait W (mkRel _ _ _ Rv Rl Rw)) as (W' & R').
+    pose proof (poll_ready_len s) as L'. rewrite E in W', R', L'. cbn [fst] in W', R', L'.
+    rewrite wakes_out_eq. cbn [app]. apply IH; auto. lia.
+  - apply Hlen. destruct (poll_ready size s) as [s' code] eqn:E.
+    destruct (poll_ready_rel s vis wait W (mkRel _ _ _ Rv Rl Rw)) as (W' & R').
+    pose proof (poll_ready_len s) as L'. rewrite E in W', R', L'. cbn [fst] in W', R', L'.
+    rewrite wakes_out_eq. cbn [app]. apply IH; auto. lia.
+  - apply Hlen. destruct (poll_ready size s) as [s' code] eqn:E.
+    destruct (poll_ready_rel s vis wait W (mkRel _ _ _ Rv Rl Rw)) as (W' & R').
+    pose proof (poll_ready_len s) as L'. rewrite E in W', R', L'. cbn [fst] in W', R', L'.
+    rewrite wakes_out_eq. cbn [app]. apply IH; auto. lia.
+  - (* consumer release *)
+    apply Hlen.
+    destruct (nth_error (rings s) i) as [x|] eqn:Ex; [|exfalso; apply nth_error_None in Ex; lia].
+    destruct (consumer_release size b x) as [x' wk] eqn:Ep.
+    destruct (W _ _ Ex) as (Cx & Tx).
+    destruct (crel_spec2 _ _ _ _ Cx Ep) as (C' & T1 & T2 & K1 & K2 & K3 & L).
+    set (ew := if wk then ewakes s + 1 else ewakes s).
+    destruct (set_ring_rel s i x x' (t_full s) ew vis wait W (mkRel _ _ _ Rv Rl Rw) ltac:(lia) Ex C' ltac:(congruence) T1 K2)
+      as (W' & L' & V1 & V2 & Wk1 & Wa1 & Wa2 & E').
+    set (s' := mkTx (set_nth i (rings s) x') (t_full s) ew) in *.
+    rewrite wakes_out_eq. cbn [app].
+    set (n := N.min b (c_len (tc x))) in *.
+    assert (Vi : nth i vis 0%Z = V s i) by (subst vis; rewrite nth3 by lia; destruct i as [|[|[|i']]]; auto; lia).
+    assert (Vsi : V s i = (Nz (tw (tc x)) - Nz (tr (tc x)))%Z) by (unfold V; rewrite Ex; auto).
+    pose proof (ci_ord _ _ Cx) as O.
+    rewrite Vi, Vsi.
+    replace (0 <=? Nz n)%Z with true by (symmetry; apply Z.leb_le; unfold Nz; lia).
+    replace (Nz n <=? Nz (tw (tc x)) - Nz (tr (tc x)))%Z with true by (symmetry; apply Z.leb_le; unfold Nz; lia).
+    cbn [andb]. apply IH; auto; [lia|].
+    constructor.
+    + subst vis. unfold upd3.
+      destruct i as [|[|[|i']]]; try lia; rewrite V2, T1, T2, !V1 by lia; cbv [set_nth];
+        repeat (f_equal; try (unfold Nz; lia)).
+    + auto.
+    + intros j Hj. destruct (Nat.eq_dec j i); [subst; apply Wa2; auto|apply Wa1; auto].
+  - (* consumer poll_acquire *)
+    apply Hlen.
+    destruct (nth_error (rings s) i) as [x|] eqn:Ex; [|exfalso; apply nth_error_None in Ex; lia].
+    destruct (consumer_poll size x) as [[x' code] n] eqn:Ep.
+    destruct (W _ _ Ex) as (Cx & Tx).
+    destruct (cpoll_spec _ _ _ _ Cx Ep) as (C' & T1 & T2 & K1 & K2 & Hc).
+    destruct (set_ring_rel s i x x' (t_full s) (ewakes s) vis wait W (mkRel _ _ _ Rv Rl Rw) ltac:(lia) Ex C' ltac:(congruence) T1 K1)
+      as (W' & L' & V1 & V2 & Wk1 & Wa1 & Wa2 & E').
+    set (s' := mkTx (set_nth i (rings s) x') (t_full s) (ewakes s)) in *.
+    rewrite wakes_out_eq. cbn [app].
+    assert (Vi : nth i vis 0%Z = V s i) by (subst vis; rewrite nth3 by lia; destruct i as [|[|[|i']]]; auto; lia).
+    assert (Vsi : V s i = (Nz (tw (tc x)) - Nz (tr (tc x)))%Z) by (unfold V; rewrite Ex; auto).
+    assert (Vall : forall j, V s' j = V s j).
+    { intros j. destruct (Nat.eq_dec j i); [subst; rewrite V2, T1, T2, Vsi; auto|apply V1; auto]. }
+    pose proof (ci_ord _ _ Cx) as O.
+    destruct Hc as [(c1 & c2 & c3)|(c1 & c2 & c3 & c4)]; subst code.
+    + cbn [Z.eqb Nz Z.of_N]. rewrite Vi, Vsi.
+      replace (0 <? Nz n)%Z with true by (symmetry; apply Z.ltb_lt; unfold Nz; lia).
+      replace (Nz n <=? Nz (tw (tc x)) - Nz (tr (tc x)))%Z with true by (symmetry; apply Z.leb_le; unfold Nz; lia).
+      cbn [andb]. apply IH; auto; [lia|].
+      constructor.
+      * subst vis. rewrite !Vall. auto.
+      * unfold upd3. rewrite length_set_nth. auto.
+      * intros j Hj. unfold upd3. rewrite nth_set_nth by lia. destruct (Nat.eqb_spec j i); [exact I|apply Wa1; auto].
+    + subst n. cbn [Z.eqb Nz Z.of_N]. rewrite Vi, Vsi.
+      replace (Nz (tw (tc x)) - Nz (tr (tc x)) =? 0)%Z with true by (symmetry; apply Z.eqb_eq; rewrite c3; lia).
+      cbn [andb]. apply IH; auto; [lia|].
+      constructor.
+      * subst vis. rewrite !Vall. auto.
+      * unfold upd3. rewrite length_set_nth. auto.
+      * intros j Hj. unfold upd3. rewrite nth_set_nth by lia. destruct (Nat.eqb_spec j i); [|apply Wa1; auto].
+        subst j. rewrite nth3 by lia. exists x'. split; auto. split; auto.
+        destruct i as [|[|[|i']]]; try lia; unfold Wk; rewrite E'; auto.
+  - apply Hlen. destruct (poll_ready size s) as [s' code] eqn:E.
+    destruct (poll_ready_rel s vis wait W (mkRel _ _ _ Rv Rl Rw)) as (W' & R').
+    pose proof (poll_ready_len s) as L'. rewrite E in W', R', L'. cbn [fst] in W', R', L'.
+    rewrite wakes_out_eq. cbn [app]. apply IH; auto. lia.
 Qed.
 End J.
+
+Theorem txrings_judge_run : forall case, TxRings.judge case (TxRings.run case) = true.
+Proof.
+  intros case. unfold judge, run, tx_size.
+  set (k2 := N.min (zN (hd 0%Z (tl case))) 4).
+  assert (Hp : 0 < 2 ^ k2) by (apply N.neq_0_lt_0; apply N.pow_nonzero; discriminate).
+  assert (Hl : 2 ^ k2 <= 2147483648) by (change 2147483648 with (2 ^ 31); apply N.pow_le_mono_r; [discriminate|unfold k2; lia]).
+  set (nr := tx_nr case).
+  assert (Hn : (1 <= nr <= 3)%nat) by (unfold nr, tx_nr; lia).
+  assert (W : wf (2 ^ k2) (tinit nr (2 ^ k2))).
+  { intros j x E. unfold tinit in E. cbn [rings] in E. apply nth_error_In in E. apply repeat_spec in E. subst. cbn.
+    split; auto. apply cinvr_init; auto. unfold two32. lia. }
+  assert (L : length (rings (tinit nr (2 ^ k2))) = nr) by (unfold tinit; cbn [rings]; apply repeat_length).
+  assert (R : Rel (tinit nr (2 ^ k2)) [0; 0; 0]%Z [None; None; None]).
+  { constructor; auto.
+    - unfold V, tinit. cbn [rings]. destruct nr as [|[|[|[|n]]]]; try lia; reflexivity.
+    - intros j Hj. destruct j as [|[|[|j]]]; try lia; exact I. }
+  destruct (judge_trun (2 ^ k2) Hp Hl (S (length case)) (tl (tl case)) _ _ _ nr W L Hn R) as [J|J]; auto.
+  exfalso. destruct case as [|a [|b t]]; cbn in J; lia.
+Qed.
